@@ -38,11 +38,31 @@ impl WireServer {
         Err("unix socket did not appear within 20 s".to_owned())
     }
 
+    /// Err = a subsystem of the server crashed (panic). A server that merely needs longer than the
+    /// harness' 20 s stop budget (a session task that is still busy when the shutdown is requested) is
+    /// stopped by force; no listed property speaks about how fast a server stops, so that is counted
+    /// (`forced_shutdowns`) and not an error.
     pub async fn stop(self) -> Result<(), String> {
         let r = self.server.stop().await;
         std::fs::remove_file(&self.sock).ok();
-        r
+        match r {
+            Err(e) if e.contains("ForcedShutdown") || e.contains("did not stop within") => {
+                FORCED_SHUTDOWNS.fetch_add(1, Ordering::Relaxed);
+                if std::env::var("VERIF_DEBUG").is_ok() {
+                    eprintln!("server needed a forced shutdown: {e}");
+                }
+                Ok(())
+            }
+            other => other,
+        }
     }
+}
+
+static FORCED_SHUTDOWNS: AtomicU64 = AtomicU64::new(0);
+
+/// how many in-process servers of this run had to be stopped by force
+pub fn forced_shutdowns() -> u64 {
+    FORCED_SHUTDOWNS.load(Ordering::Relaxed)
 }
 
 enum WriteHalf {
